@@ -116,6 +116,17 @@ theorem C06_default_hook_hands_over_the_node :
   simp [List.getElem?_eq_getElem hi', id] at this ⊢
   exact this
 
+/-- `accept` enters the hooks once PER CALL, whatever the history of the (node, visitor) pair: after a visit whose first hook raised
+    the next visit enters the same hooks as a first visit; a visit re-entered from inside its first hook enters that hook, then the
+    whole chain of the inner visit, then the rest of its own; and with every hook overridden three calls enter the node's own hook
+    three times.  (No memory of visits in progress or aborted.) -/
+theorem C06_one_entry_per_accept_call :
+    reentry.length = rows.length ∧
+    ∀ p ∈ rows.zip reentry,
+      p.2.1 = p.1.chain ∧
+      p.2.2.1 = p.1.chain.take 1 ++ p.1.chain ++ p.1.chain.drop 1 ∧
+      p.2.2.2 = [.leaf p.1.category, .leaf p.1.category, .leaf p.1.category] := by decide +kernel
+
 /-- Coverage of that column: every declaration kind (leaf interface derived from `Decl`) was observed on a redeclaration
     too, except the kinds documented as not redeclarable — and those exceptions are declaration kinds, never observed
     redeclared. -/
